@@ -198,6 +198,19 @@ theorem Isect.fromLine_ok {l : Line} (h : J.line l) :
   rw [h1]
   exact ⟨rfl, hn, h2, h3⟩
 
+/-- `LinearEquation::distance` / `check_side` (the self-intersection test of a join): points
+within `+-8191`, normal vectors within `+-16382` (deltas of such points), origin distance within
+`+-2^30`. -/
+theorem Isect.distance_ok {le : EG.Isect.LinearEquation} {p : Pt}
+    (hn : (-16382 ≤ le.normal.x ∧ le.normal.x ≤ 16382) ∧ (-16382 ≤ le.normal.y ∧ le.normal.y ≤ 16382))
+    (hp : (-8191 ≤ p.x ∧ p.x ≤ 8191) ∧ (-8191 ≤ p.y ∧ p.y ≤ 8191))
+    (ho : -1073741824 ≤ le.originDistance ∧ le.originDistance ≤ 1073741824) :
+    Isect.distance le p = some (EG.Isect.distance le p) := by
+  have h1 := mul_bounds hp.1 hn.1
+  have h2 := mul_bounds hp.2 hn.2
+  unfold Isect.distance EG.Isect.distance Isect.dot EG.Isect.dot
+  chk_simp
+
 /-- `IntersectionParams::from_lines`. -/
 theorem Isect.fromLines_ok {l1 l2 : Line} (h1 : J.line l1) (h2 : J.line l2) :
     Isect.fromLines l1 l2 =
